@@ -18,35 +18,7 @@ from harness import dr_world as W
 from insights.core import dr
 
 
-class DeferPool(object):
-    """a pool whose submit() defers; tasks are executed later in a PRNG-chosen order"""
-
-    def __init__(self, rng):
-        self.rng, self.tasks = rng, []
-
-    def submit(self, fn, *a):
-        fut = _Fut(self, fn, a)
-        self.tasks.append(fut)
-        return fut
-
-    def drain(self):
-        self.rng.shuffle(self.tasks)
-        for t in self.tasks:
-            t.run()
-        self.tasks = []
-
-
-class _Fut(object):
-    def __init__(self, pool, fn, a):
-        self.pool, self.fn, self.a, self.done, self.val = pool, fn, a, False, None
-
-    def run(self):
-        if not self.done:
-            self.val, self.done = self.fn(*self.a), True
-
-    def result(self):
-        self.pool.drain()
-        return self.val
+DeferPool = W.DeferPool
 
 
 class Ctx(object):
@@ -122,6 +94,8 @@ def run(chk):
 
         def record(name, r, to_model=True):
             case = dict(base_case, order=r.order_ids, schedule=name)
+            if getattr(r, "edges_changed", None):
+                chk.failure("schedule %s: %s" % (name, r.edges_changed), case)
             if r.error is not None:
                 chk.failure("schedule %s raised %r" % (name, r.error), case)
                 return
@@ -130,6 +104,33 @@ def run(chk):
                 lines.append(r.run_line)
                 impl.append(r.text)
                 cases.append(case)
+        if idx % 5 == 1:
+            # history: first an evaluation of a LOADED archive (SerializedArchiveContext in the broker, components with
+            # dependencies already present) through one of the entry points, the graph's values being the registry's own
+            # edge sets; every schedule below must still agree afterwards and the declared edges must be what they were
+            import random as _random
+            hr = _random.Random(chk.seed * 7919 + idx)
+            keys = list(graph)
+            with_deps = [world.ids[c] for c in keys if graph[c]]
+            pre = list(seeds)
+            for cid in hr.sample(with_deps, min(len(with_deps), hr.randint(1, 2))):
+                if cid not in [x for x, _ in pre]:
+                    pre.append((cid, "A%d" % (7000 + cid)))
+            sset = set(x for x, _ in pre)
+            nested = any(world.ids.get(d) in sset for c in keys if world.ids[c] in sset for d in graph[c] if d in graph)
+            if not nested:
+                shared, via = hr.choice(["deps", "group", "delegate"]), hr.choice(["run", "run_all", "run_incremental"])
+                err, before, after = W.loaded_archive_history(world, graph, pre, ss, shared, via)
+                hcase = dict(base_case, order=None, schedule="loaded-archive-history", pre=pre, shared=shared, via=via)
+                if err is not None:
+                    chk.failure("evaluation of a loaded archive through %s raised %r" % (via, err), hcase)
+                if after != before:
+                    diff = sorted(k for k in before if before[k] != after.get(k))
+                    chk.failure("evaluating a loaded archive through %s changed the declared edges of %s: %s -> %s (every later "
+                                "evaluation in the process sorts on them, so schedules stop agreeing)"
+                                % (via, diff, [before[k] for k in diff], [after.get(k) for k in diff]), hcase)
+                chk.count("loaded-archive-history:" + via)
+                base_case.update(pre=pre, shared=shared, via=via)      # every later case of this world replays the history first
         record("run", W.evaluate(world, seeds, ss, graph, mode="run"))
         for k, o in enumerate(W.linear_extensions(rng, world, graph, 2)):
             record("extension%d" % k, W.evaluate(world, seeds, ss, graph, order=o))
@@ -178,8 +179,12 @@ def run(chk):
         def whole(name, fn):
             b = world.new_broker(seeds, ss)
             W.instrument(world, b)
+            edges = world.edge_snapshot()
             try:
                 fn(b)
+                why = world.edges_changed(edges)
+                if why:
+                    chk.failure("schedule %s: %s" % (name, why), dict(base_case, order=None, schedule=name))
                 results.append((name, plain(W.canon_broker(world, b)), dict(base_case, order=None, schedule=name)))
             except Exception as ex:
                 chk.failure("schedule %s raised %r" % (name, ex), dict(base_case, order=None, schedule=name))
@@ -294,10 +299,23 @@ def _replay_once(data):
     if case.get("dropped") is not None:
         graph.pop(world.comps[case["dropped"]], None)
     ss = case["store_skips"]
+    bad = False
+    if case.get("pre") is not None:
+        err, before, after = W.loaded_archive_history(world, graph, case["pre"], ss, case["shared"], case.get("via", "run"))
+        print("history: a loaded archive (components %s present) was evaluated first through %s" % ([x for x, _ in case["pre"]], case.get("via", "run")))
+        if err is not None:
+            print("  it raised %r" % (err,))
+            bad = True
+        if after != before:
+            diff = sorted(k for k in before if before[k] != after.get(k))
+            print("  it changed the declared edges of %s: %s -> %s" % (diff, [before[k] for k in diff], [after.get(k) for k in diff]))
+            bad = True
+        graph = world.graph_for(case["targets"])
+        if case.get("dropped") is not None:
+            graph.pop(world.comps[case["dropped"]], None)
     g2 = lambda: dict((k, set(v)) for k, v in graph.items())
     ref = W.evaluate(world, seeds, ss, graph, mode="run")
     print("dr.run:      ", plain(ref.text))
-    bad = False
     if case.get("order") is not None:
         r = W.evaluate(world, seeds, ss, graph, order=[world.comps[i] for i in case["order"]])
         print("recorded order:", plain(r.text) if r.error is None else r.error)
